@@ -87,6 +87,22 @@ fn reader_side(case: &str, t: i32, shp: &[u8], shx: &[u8], n: usize, written: &[
                 None => return bad("reader.nth", J::obj(vec![("index", J::UInt(i as u64)), ("error", J::s("None"))])),
             }
         }
+        // ... and the same reader, iterated after those random accesses (the last one at index 0),
+        // still yields position i at position i
+        let mut again: Vec<D> = vec![];
+        for x in with_idx.iter_shapes() {
+            match x {
+                Ok(s) => again.push(s.d()),
+                Err(e) => return bad("reader.iter-after-random-access", J::obj(vec![("items_before_error", J::UInt(again.len() as u64)), ("error", J::s(err_class(&e)))])),
+            }
+            if again.len() > n {
+                break;
+            }
+        }
+        if again != seq {
+            let at = again.iter().zip(seq.iter()).position(|(a, b)| a != b).unwrap_or(again.len().min(seq.len()));
+            return bad("reader.iter-after-random-access", J::obj(vec![("items", J::UInt(again.len() as u64)), ("written", J::UInt(n as u64)), ("first_difference_at", J::UInt(at as u64))]));
+        }
         for i in [n, n + 1, n + 7] {
             if with_idx.read_nth_shape(i).is_some() {
                 return bad("reader.nth-past-end", J::obj(vec![("index", J::UInt(i as u64))]));
@@ -150,6 +166,12 @@ pub fn run(ctx: &Ctx, with_reader_side: bool) -> Report {
         // must be the same well-formed file; C09 enumerates such histories exhaustively)
         let mid_finalize: Option<usize> = if i % 5 == 2 && nshapes >= 2 { Some(1 + i % (nshapes - 1)) } else { None };
         let by_path = i % 3 == 1;
+        // every 7th file: the first shapes through write_shape, the rest through the consuming bulk
+        // route write_shapes on the same writer (which then drops it)
+        let bulk_tail: Option<usize> = if i % 7 == 4 && nshapes >= 2 && mid_finalize.is_none() { Some(1 + (i / 7) % (nshapes - 1)) } else { None };
+        if bulk_tail.is_some() {
+            rep.count("files_ended_through_write_shapes(bulk)_after_write_shape", 1);
+        }
         // path-created pairs rotate through file-name styles (dots inside the stem, upper-case
         // extension, spaces / non-ASCII); the index always sits next to the .shp as <stem>.shx
         let name = match if by_path { (i / 3) % 4 } else { 0 } {
@@ -179,12 +201,17 @@ pub fn run(ctx: &Ctx, with_reader_side: bool) -> Report {
                 {
                     let mut w = ShapeWriter::from_path(&shp_path)?;
                     for (k, s) in shapes.iter().enumerate() {
+                        if bulk_tail == Some(k) {
+                            break;
+                        }
                         write_one(&mut w, s)?;
                         if mid_finalize == Some(k + 1) {
                             w.finalize()?;
                         }
                     }
-                    if finalize {
+                    if let Some(k) = bulk_tail {
+                        crate::e_c09::write_tail(w, &shapes[k..].iter().collect::<Vec<&Shape>>())?;
+                    } else if finalize {
                         w.finalize()?;
                     }
                 }
@@ -195,12 +222,17 @@ pub fn run(ctx: &Ctx, with_reader_side: bool) -> Report {
                 {
                     let mut w = ShapeWriter::with_shx(&mut shp, &mut shx);
                     for (k, s) in shapes.iter().enumerate() {
+                        if bulk_tail == Some(k) {
+                            break;
+                        }
                         write_one(&mut w, s)?;
                         if mid_finalize == Some(k + 1) {
                             w.finalize()?;
                         }
                     }
-                    if finalize {
+                    if let Some(k) = bulk_tail {
+                        crate::e_c09::write_tail(w, &shapes[k..].iter().collect::<Vec<&Shape>>())?;
+                    } else if finalize {
                         w.finalize()?;
                     }
                 }
@@ -298,6 +330,10 @@ pub fn run(ctx: &Ctx, with_reader_side: bool) -> Report {
     std::fs::write(format!("{}/models.jsonl", ctx.out), s).expect("harness: write models");
     if ctx.only.is_none() {
         rep.guard("files produced", m.len() as u64, (TYPES.len() * n) as u64);
+        for k in ["files_with_a_finalize_in_the_middle", "files_ended_through_write_shapes(bulk)_after_write_shape"] {
+            let v = rep.counters.get(k).copied().unwrap_or(0);
+            rep.guard(k, v, 50);
+        }
     }
     rep
 }
